@@ -367,6 +367,9 @@ def shards(tier):
     for s in seeds(tier):
         out.append({"tier": tier, "seed": s, "family": "bits", "part": 0, "of": 1})
         out.append({"tier": tier, "seed": s, "family": "forgeries"})
+        # the same menu with the application's logging at DEBUG (messages are
+        # pretty-printed for the log before / while they are verified)
+        out.append({"tier": tier, "seed": s, "family": "forgeries", "lib_log": "DEBUG"})
         if tier == "thorough" or (s["op"] == "get" and (s["level"], s["method"]) in (("authNoPriv", "md5"), ("authPriv", "sha1"))):
             for fbit in range(8):
                 out.append({"tier": tier, "seed": s, "family": "flagpairs", "fbit": fbit})
